@@ -1053,6 +1053,13 @@ pixman_f_transform_bounds (const struct pixman_f_transform *t,
 	if (!pixman_f_transform_point (t, &v[i]))
 	    return FALSE;
 
+	/* the box has 16-bit coordinates */
+	if (!(floor (v[i].v[0]) >= INT16_MIN && ceil (v[i].v[0]) <= INT16_MAX &&
+	      floor (v[i].v[1]) >= INT16_MIN && ceil (v[i].v[1]) <= INT16_MAX))
+	{
+	    return FALSE;
+	}
+
 	x1 = floor (v[i].v[0]);
 	y1 = floor (v[i].v[1]);
 	x2 = ceil (v[i].v[0]);
